@@ -39,11 +39,49 @@ Section Sync.
     ∧ c_trie (foldr (mark_dcode H) cs l) = c_trie cs ∧ c_root (foldr (mark_dcode H) cs l) = c_root cs.
   Proof. induction l as [|a l IH]; [done|]. simpl. destruct IH as (?&?&?&?&?&?). done. Qed.
 
+  (* SetTxContext + Prepare touch the tx context, the access list and the transient storage only *)
+  Lemma al_add_address_core a j : core_eq (al_add_address a j).1 j.
+  Proof. unfold al_add_address. destruct (j_ala j !! a); [done|]. by destruct j. Qed.
+  Lemma al_add_slot_core a k j : core_eq (al_add_slot a k j).1.1 j.
+  Proof. unfold al_add_slot. repeat case_match; by destruct j. Qed.
+  Lemma al_slots_core a ks : ∀ j, core_eq (foldl (λ j k, (al_add_slot a k j).1.1) j ks) j.
+  Proof.
+    induction ks as [|k r IH]; intros j; [done|]. simpl.
+    eapply core_eq_trans; [apply IH|apply al_add_slot_core].
+  Qed.
+  Lemma prepare_al_core r sender coinbase dst l j : core_eq (prepare_al r sender coinbase dst l j) j.
+  Proof.
+    unfold prepare_al.
+    set (j0 := j <| j_ala := ∅ |> <| j_als := [] |>).
+    assert (E0 : core_eq j0 j) by (by destruct j).
+    set (j1 := (al_add_address sender j0).1).
+    assert (E1 : core_eq j1 j) by (eapply core_eq_trans; [apply al_add_address_core|done]).
+    set (j2 := match dst with Some d => (al_add_address d j1).1 | None => j1 end).
+    assert (E2 : core_eq j2 j).
+    { unfold j2. destruct dst; [|done]. eapply core_eq_trans; [apply al_add_address_core|done]. }
+    assert (E3 : ∀ l jj, core_eq jj j →
+              core_eq (foldl (λ j e, foldl (λ j k, (al_add_slot e.1 k j).1.1) (al_add_address e.1 j).1 e.2) jj l) j).
+    { clear. induction l as [|e r' IH]; intros jj Hjj; [done|]. simpl. apply IH.
+      eapply core_eq_trans; [apply al_slots_core|]. eapply core_eq_trans; [apply al_add_address_core|done]. }
+    destruct (rShanghai r); [|by apply E3].
+    eapply core_eq_trans; [apply al_add_address_core|by apply E3].
+  Qed.
+  Lemma txstart_core j th ti r sender coinbase dst l :
+    core_eq (step_j j (OTxStart th ti r sender coinbase dst l)).1 j.
+  Proof.
+    simpl. set (j1 := j <| j_th := th |> <| j_ti := ti |>).
+    assert (E1 : core_eq j1 j) by (by destruct j).
+    set (j2 := if r2929 r then prepare_al r sender coinbase dst l j1 else j1).
+    assert (E2 : core_eq j2 j).
+    { unfold j2. destruct (r2929 r); [|done]. eapply core_eq_trans; [apply prepare_al_core|done]. }
+    eapply core_eq_trans; [|exact E2]. by destruct j2.
+  Qed.
+
   (* a body call: anything but Finalise, inside the guards of C13 *)
   Definition body_op (j : jstate) (o : op) : Prop :=
     match o with
-    | OSnapshot | ORevert _ => True
-    | OFinalise _ | OTxStart _ _ _ _ _ _ _ => False
+    | OSnapshot | ORevert _ | OTxStart _ _ _ _ _ _ _ => True
+    | OFinalise _ => False
     | o => op_ok j o = true ∧ sticky_j j o = false
     end.
 
@@ -88,7 +126,7 @@ Section Sync.
 
   Lemma creates_absent j o a : body_op j o → creates j o = Some a → j_objs j !! a = None.
   Proof.
-    destruct o; try done; simpl; intros [Hok _];
+    destruct o; try done; simpl; try (intros _; done); intros [Hok _];
       try (destruct (j_objs j !! a0) eqn:E; [done|]; intros [= <-]; done).
   Qed.
 
@@ -100,6 +138,7 @@ Section Sync.
     - (* Revert *) simpl. destruct (find_revision id (j_revs j)) as [[idx rest]|]; simpl; [|done].
       eapply Fwd_proper; [apply (fwd_revert_n s0 (length (j_entries j) - idx) j W0 E0 F)|].
       unfold revert_to. by destruct (revert_n (length (j_entries j) - idx) j).
+    - (* SetTxContext + Prepare *) eapply Fwd_proper; [exact F|apply txstart_core].
   Qed.
 
   Lemma InTx_step cs0 cs o :
